@@ -178,6 +178,8 @@ func c13(c *Ctx) {
 	// ---- one calendar day through every Date entry point
 	var heldResp *messages.GetCardByIndexResponse
 	heldDay := ""
+	var heldEnc []byte
+	heldEncCopy := ""
 	checkDay := func(y, m, d int, tag string) {
 		if y < 1 || y > 9999 || (y == 1 && m == 1 && d == 1) {
 			return
@@ -213,6 +215,12 @@ func c13(c *Ctx) {
 			}
 			if enc, eerr := dt.MarshalUT0311L0x(); eerr != nil || string(enc) != string(wire) {
 				viol(key+":"+entry+":encode", fmt.Sprintf("date %s from %s encodes as %x, expected %x", want, entry, enc, wire), map[string]any{"day": want, "entry": entry, "mode": tag})
+			} else {
+				// the encoding of the date encoded before this one - which the application still holds - still reads as that date
+				if heldEnc != nil && string(heldEnc) != heldEncCopy {
+					viol(key+":"+entry+":encode:held", fmt.Sprintf("the encoding of an earlier date (%x) reads %x after the date %s was encoded", []byte(heldEncCopy), heldEnc, want), map[string]any{"day": want, "entry": entry, "mode": tag})
+				}
+				heldEnc, heldEncCopy = enc, string(enc)
 			}
 			if js, jerr := json.Marshal(dt); jerr != nil || string(js) != `"`+want+`"` {
 				viol(key+":"+entry+":json", fmt.Sprintf("date %s from %s has JSON form %s", want, entry, js), map[string]any{"day": want, "entry": entry, "mode": tag})
@@ -736,6 +744,81 @@ func c13(c *Ctx) {
 		}
 		wg.Wait()
 		c.Res.Count("concurrent-date-resolutions", int64(G*per))
+	}
+
+	// ---- the listener and several pollers at the same time: the system date and time of every status are combined from its own
+	// datagram, whatever other statuses are being put together in the process at that moment (every sixth batch, and the multi-processor ones)
+	if c.Batch%6 == 0 || runtime.GOMAXPROCS(0) > 2 {
+		mkStatus := func(rr gen.R, serial, seqid uint32) ([]byte, string) {
+			for {
+				st := time.Unix(946684800+int64(rr.Pick(69*365*86400)), 0)
+				cv := civilOf(st.Unix(), loc)
+				if cv.y < 2000 || cv.y > 2068 || !z.civilExists(cv.y, cv.m, cv.d, cv.h, cv.mi, cv.s) {
+					continue
+				}
+				msg := okReply(statusOp, serial)
+				l := statusOp.ReplyLayout()
+				rm.EncodeField(msg, *l.Field("SequenceId"), rm.UVal(rm.U32, uint64(seqid)))
+				rm.EncodeField(msg, *l.Field("SystemDate"), rm.Val{K: rm.SysDate, Y: cv.y, Mo: cv.m, D: cv.d})
+				rm.EncodeField(msg, *l.Field("SystemTime"), rm.Val{K: rm.SysTime, H: cv.h, Mi: cv.mi, S: cv.s})
+				return msg, fmt.Sprintf("%04d-%02d-%02d %02d:%02d:%02d", cv.y, cv.m, cv.d, cv.h, cv.mi, cv.s)
+			}
+		}
+		per := c.N(1500, 12000) * (1 + runtime.GOMAXPROCS(0)) / 3
+		var wg sync.WaitGroup
+		var nbad atomic.Int64
+		for len(evc) > 0 {
+			<-evc
+		}
+		// the listener's side: one event at a time through the in-memory driver of the listening client
+		wg.Add(1)
+		go func() {
+			defer wg.Done()
+			rr := gen.New(c.Seed, "C13/concurrent-status/listen/"+zone, c.Batch)
+			for k := 0; k < per && nbad.Load() < 4; k++ {
+				msg, want := mkStatus(rr, 405419896, uint32(0x00700000+k))
+				if !d.Push(msg) {
+					return
+				}
+				select {
+				case st := <-evc:
+					c.Res.Eval(1)
+					if got := adapter.PDateTime(st.SystemDateTime).String(); st.SequenceId == uint32(0x00700000+k) && got != want {
+						nbad.Add(1)
+						c.Res.Violate("C13:status:listen:concurrent", fmt.Sprintf("Listen: system date+time transmitted as %s is delivered as %s while other goroutines poll GetStatus (TZ=%s)", want, got, zone), map[string]any{"zone": zone, "civil": want, "got": got}, -7)
+					}
+				case <-time.After(2 * time.Second):
+					return
+				}
+			}
+		}()
+		for g := 0; g < 3; g++ {
+			wg.Add(1)
+			go func(g int) {
+				defer wg.Done()
+				rr := gen.New(c.Seed, fmt.Sprintf("C13/concurrent-status/poll%d/%s", g, zone), c.Batch)
+				ug, dg := mkMemClient(ClientCfg{})
+				var cur []byte
+				dg.Script = func(adapter.Invocation) ([][]byte, error) { return [][]byte{append([]byte{}, cur...)}, nil }
+				for k := 0; k < per && nbad.Load() < 4; k++ {
+					serial := uint32(303986753 + g)
+					msg, want := mkStatus(rr, serial, uint32(k+1))
+					cur = msg
+					st, err := ug.GetStatus(serial)
+					c.Res.Eval(1)
+					if err != nil || st == nil || adapter.PDateTime(st.SystemDateTime).String() != want {
+						nbad.Add(1)
+						got := "-"
+						if st != nil {
+							got = adapter.PDateTime(st.SystemDateTime).String()
+						}
+						c.Res.Violate("C13:status:get-status:concurrent", fmt.Sprintf("GetStatus: system date+time transmitted as %s is reported as %s (err %v) while a listener and other pollers are at work (TZ=%s)", want, got, err, zone), map[string]any{"zone": zone, "civil": want, "got": got}, -7)
+					}
+				}
+			}(g)
+		}
+		wg.Wait()
+		c.Res.Count("statuses-combined-concurrently(listener+3 pollers)", int64(4*per))
 	}
 
 	// stop the listener
